@@ -13,6 +13,10 @@ import (
 var sfoMagic = [...]byte{0, 'P', 'S', 'F'}
 
 // Limits for what is read into memory: real keys are short identifiers, real values are at most few KiB.
+// sfoFormatUTF8NotTerminated is a data format of string which occupies all of it's declared length
+// (the usual one, 0x0204, ends with NUL).
+const sfoFormatUTF8NotTerminated = 0x0004
+
 const (
 	sfoMaxKeyLen   = 512
 	sfoMaxValueLen = 64 << 10
@@ -101,7 +105,12 @@ func sfoField(f afero.File, field string) (string, error) {
 
 	var ret strings.Builder
 
-	_, err = io.CopyN(&ret, f, int64(idxEntry.DataLen)-1) // because null-terminated
+	valueLen := int64(idxEntry.DataLen)
+	if idxEntry.DataFormat != sfoFormatUTF8NotTerminated {
+		valueLen-- // because null-terminated
+	}
+
+	_, err = io.CopyN(&ret, f, valueLen)
 	if err != nil {
 		return "", fmt.Errorf("failed to read value: %w", err)
 	}
